@@ -368,4 +368,11 @@ example : (filterInputs 253 [⟨0, 9000, 500, none, false, none, 600, 100000, so
                              ⟨1, 8000, 500, none, false, none, 600, 100000, some 330, 34⟩]).map (·.idx) = [1] := by
   decide
 
+/-- `sweep_outputs_not_dust` is not vacuous: an input whose required output sits exactly at the
+    P2WSH dust limit comes out of `ClusterInputs` as a one-input set. -/
+example : (clusterInputs 253 100 [⟨0, 9000, 500, none, false, none, 600, 100000, some 330, 34⟩]).map
+    (fun s => s.inputs.map (·.idx)) = [[0]] := by
+  simp [clusterInputs, filterInputs, feeForWeight, wrap64, PInp.reqDust, isDustOutput, dustLimitForSize,
+    groupByKey, sortInputs, lockGroups, mergeInto, chunks]
+
 end LndModel.C18
